@@ -17,8 +17,8 @@ package authip
 import (
 	"io/ioutil"
 	"path"
+	"sync/atomic"
 
-	"github.com/cornelk/hashmap"
 	"github.com/fsnotify/fsnotify"
 	"github.com/pkg/errors"
 	"gopkg.in/yaml.v3"
@@ -29,30 +29,40 @@ import (
 type AuthIp struct {
 	path string
 	name string
-
-	// listed the addresses put into IpMap by the previous successful load
-	listed []string
 }
 
 var IpMap ipMap
 
 type ipMap struct {
 	enable bool
-	hashmap.HashMap
+
+	// set the admitted addresses, a map[string]struct{} that is never modified once stored: a reload
+	// publishes a new one. (Deleting from a shared lock-free map while its background resize was still
+	// running could bring removed addresses back.)
+	set atomic.Value
 }
 
 func (i *ipMap) Validate(ip string) bool {
 	if i.enable {
-		if _, ok := i.Get(ip); !ok {
+		if _, ok := i.admitted()[ip]; !ok {
 			return false
 		}
 	}
 	return true
 }
 
-func (i *ipMap) Insert(key string, value struct{}) bool {
-	_, ok := i.HashMap.GetOrInsert(key, value)
-	return ok
+func (i *ipMap) admitted() map[string]struct{} {
+	m, _ := i.set.Load().(map[string]struct{})
+	return m
+}
+
+// List returns the admitted addresses.
+func (i *ipMap) List() []string {
+	var ips []string
+	for ip := range i.admitted() {
+		ips = append(ips, ip)
+	}
+	return ips
 }
 
 type authIp struct {
@@ -121,26 +131,14 @@ func (a *AuthIp) parseAuthIp() error {
 		return nil
 	}
 
-	// addresses that are no longer in the file stop being admitted
-	for _, ip := range a.listed {
-		if !contains(auth.IpList, ip) {
-			IpMap.Del(ip)
-		}
-	}
+	// the admitted set becomes exactly the file's list
+	set := make(map[string]struct{}, len(auth.IpList))
 	for _, ip := range auth.IpList {
-		if !IpMap.Insert(ip, struct{}{}) {
+		if _, ok := set[ip]; !ok {
 			logging.Debugf("set ip %s", ip)
 		}
+		set[ip] = struct{}{}
 	}
-	a.listed = auth.IpList
+	IpMap.set.Store(set)
 	return nil
-}
-
-func contains(list []string, s string) bool {
-	for _, v := range list {
-		if v == s {
-			return true
-		}
-	}
-	return false
 }
